@@ -201,7 +201,7 @@ Definition check (fx : fixes) (c : case) : verdict :=
        let H := H_tab (c_sha c) in
        guards [(1%Z, g_F1 steps rp && negb (fx1 fx)); (2%Z, g_F2 fx H steps && negb (fx2 fx));
                (3%Z, g_F3 fx H steps && negb (fx3 fx)); (10%Z, g_F10 fx H steps && negb (fx10 fx));
-               (4%Z, g_F4 fx H steps); (6%Z, g_F6 fx H steps); (7%Z, g_F7 fx H steps)] |}.
+               (4%Z, g_F4 fx H steps); (6%Z, g_F6 fx H steps && negb (fx6 fx)); (7%Z, g_F7 fx H steps)] |}.
 
 (* ------------------------------------------------------------------ short names for generated files *)
 
